@@ -188,9 +188,16 @@ def distancePointFromCurvedPlanes (coord : CoordSys R) (checkPoint nat : P3 R) (
     let angsNext ← idx angles (iSec + 1)
     let lensCur ← idx lengths iSec
     let lensNext ← idx lengths (iSec + 1)
+    -- spherical: the description of the check point closest in longitude to the closest trench point decides 'on or below the trench'
+    -- (upstream 'fix: on-trench test compared longitudes that can be 2 pi apart')
+    let lonShift : R :=
+      let dl := checkSurface2d.x - cl2d.x
+      if dl > Scalar.pi then (-2.0 : R) * Scalar.pi else if dl < -Scalar.pi then (2.0 : R) * Scalar.pi else 0.0
+    let checkSurfaceAl : P3 R := if cart then checkSurface else { checkSurface with y := checkSurface.y + lonShift }
+    let checkSurface2dAl : P2 R := if cart then checkSurface2d else ⟨checkSurface2d.x + lonShift, checkSurface2d.y⟩
     -- the frame
     let frame : Except Err (Option (P3 R × P3 R)) :=
-      if fabs (P3.norm (checkSurface - clSurface)) < (2e-14 : R) then
+      if fabs (P3.norm (checkSurfaceAl - clSurface)) < (2e-14 : R) then
         if fabs (P3.norm (checkPoint - clCart)) > (2e-14 : R) then do
           let p1 ← idx pointList iSec
           let p2 ← idx pointList (iSec + 1)
@@ -211,7 +218,7 @@ def distancePointFromCurvedPlanes (coord : CoordSys R) (checkPoint nat : P3 R) (
                            uz * ux * vx - uy * vx + uz * uy * vy + ux * vy + uz * uz * vz⟩
           -- `((normal - closest)*1e2) + closest`
           let refp : P2 R := ⟨(cp.normal.x - cl2d.x) * (1e2 : R) + cl2d.x, (cp.normal.y - cl2d.y) * (1e2 : R) + cl2d.y⟩
-          let side : R := if P2.normSq (cl2d - refp) < P2.normSq (checkSurface2d - refp) then -1 else 1
+          let side : R := if P2.normSq (cl2d - refp) < P2.normSq (checkSurface2dAl - refp) then -1 else 1
           let x := P3.smul' x (side / P3.norm x)
           pure (some (x, y))
         else pure none
